@@ -175,7 +175,7 @@ func c16DateTimeZoned(iana bool) {
 	y := int(dg[0])*1000 + int(dg[1])*100 + int(dg[2])*10 + int(dg[3])
 	m := int(dg[4])*10 + int(dg[5])
 	d := int(dg[6])*10 + int(dg[7])
-	verifAssume(y >= 1970 && verifValidDate(y, m, d) && !(y == 9999 && m == 12 && d >= 29))
+	verifAssume(y >= 1971 && verifValidDate(y, m, d) && !(y == 9999 && m == 12 && d >= 29))
 	if iana {
 		verifZoneTable()
 	}
